@@ -174,7 +174,7 @@ fn child_ctx(args: &[String]) -> ChildCtx {
         };
         libc::setrlimit(libc::RLIMIT_AS, &lim);
     }
-    panic::set_hook(Box::new(|_| {}));
+    crate::pipeline::install_panic_hook();
     ChildCtx {
         from,
         to,
@@ -221,14 +221,9 @@ fn space_size(k: u64, maxlen: u32) -> u64 {
     total
 }
 
-fn panic_text(e: Box<dyn std::any::Any + Send>) -> String {
-    if let Some(s) = e.downcast_ref::<&str>() {
-        s.to_string()
-    } else if let Some(s) = e.downcast_ref::<String>() {
-        s.clone()
-    } else {
-        "panic".into()
-    }
+fn panic_text(_e: Box<dyn std::any::Any + Send>) -> String {
+    let (msg, loc) = crate::pipeline::take_panic();
+    format!("{} @ {}", msg, loc)
 }
 
 // ------------------------------------------------------------------------------------------
@@ -308,7 +303,7 @@ pub fn lex_enum(args: &[String]) {
 pub fn lex_file(args: &[String]) {
     let input = get_arg(args, "--in").unwrap();
     let out = get_arg(args, "--out").unwrap();
-    panic::set_hook(Box::new(|_| {}));
+    crate::pipeline::install_panic_hook();
     let mut w = BufWriter::new(fs::File::create(out).unwrap());
     for line in BufReader::new(fs::File::open(input).unwrap()).lines() {
         let line = line.unwrap();
@@ -318,7 +313,7 @@ pub fn lex_file(args: &[String]) {
         let text: String = serde_json::from_str(&line).unwrap();
         let mut rec = lex_record(&text);
         // long texts: keep the record small, the token triples are what is checked
-        if text.len() > 64 {
+        if text.len() > 24 {
             rec["cp"] = json!([]);
             rec["w"] = json!([]);
             // character boundaries are checked here because cp/w are dropped
@@ -604,7 +599,7 @@ fn expr_json(e: ast::Expr, tree: &SyntaxTree) -> Value {
 pub fn parse_exprs(args: &[String]) {
     let input = get_arg(args, "--in").unwrap();
     let out = get_arg(args, "--out").unwrap();
-    panic::set_hook(Box::new(|_| {}));
+    crate::pipeline::install_panic_hook();
     let mut w = BufWriter::new(fs::File::create(out).unwrap());
     for line in BufReader::new(fs::File::open(input).unwrap()).lines() {
         let line = line.unwrap();
